@@ -357,7 +357,22 @@ impl QView {
     }
 }
 
-pub type LogView = Map<Seq<char>, QView>;
+/// the whole log: queue name -> queue.  Keys are Strings; `skey` names the String with given characters.
+pub type LogView = Map<String, QView>;
+
+pub open spec fn skey(k: Seq<char>) -> String { choose|s: String| s@ == k }
+
+/// every character sequence is the content of some String (assumed; trusted base)
+pub broadcast axiom fn axiom_skey_view(k: Seq<char>)
+    ensures (#[trigger] skey(k))@ == k;
+
+/// skey(s@) == s (Strings are determined by their characters)
+pub proof fn lemma_skey(s: String)
+    ensures skey(s@) == s,
+{
+    crate::std_specs::axiom_string_view_injective(skey(s@), s);
+}
+
 
 // ------------------------------------------------------------------------------------ WAL entries
 /// abstract WAL entry: kind code (on-disk type byte), queue name, position field, body
@@ -421,6 +436,12 @@ pub open spec fn parse_entry(b: Seq<u8>) -> Option<EntryView> {
             else { Some(EntryView { kind: b[0], queue: vstd::utf8::decode_utf8(qbytes), position, body: if b[0] == 4 { body } else { Seq::empty() } }) }
         }
     }
+}
+
+/// replay rule of a RecordPosition entry / of the first AppendRecords seen for an unknown queue (C09):
+/// an empty queue already at `p` is left alone; anything else is replaced by an empty queue at `p`
+pub open spec fn log_ack(v: LogView, k: String, p: u64) -> LogView {
+    if v.contains_key(k) && v[k].recs.len() == 0 && v[k].next() == p { v } else { v.insert(k, QView::empty_at(p)) }
 }
 
 } // verus!
